@@ -268,6 +268,7 @@ def run(ctx):
             if impl != project(mo, impl, ign):
                 ctx.diverge(what, case, impl, mo)
         k4_witness(ctx, root)
+        opaque_mock_probe(ctx, root)
     finally:
         tempfile.tempdir = old_tmp
 
@@ -445,6 +446,46 @@ def k4_witness(ctx, root):
             ctx.notes['K4'] = 'witness passes: finding K4 appears repaired'
     finally:
         b.cleanup_module()
+
+
+def opaque_mock_probe(ctx, root):
+    """a mock value is handed to the task as it is — also when it is a callable, a class or a generator factory (values that a
+    real upstream task can legitimately return); implementation-only clause (such values are not JSON)"""
+    from taskchain import Task, InMemoryData
+    from taskchain.utils.testing import create_test_task, TestChain
+
+    class Up(Task):
+        class Meta:
+            data_class = InMemoryData
+
+        def run(self) -> object:
+            return len
+
+    class Down(Task):
+        class Meta:
+            input_tasks = [Up]
+            data_class = InMemoryData
+
+        def run(self, up) -> object:
+            return {'same': up}
+
+    calls = []
+
+    def fn(*a):
+        calls.append(a); return 'CALLED'
+    for k, mock in enumerate([fn, dict, (lambda: 5)]):
+        case = {'probe': 'opaque mock value', 'kind': ['function', 'class', 'lambda'][k]}
+        ctx.case(case); ctx.count('opaque-mock-probe')
+        for via in ('create_test_task', 'TestChain'):
+            if via == 'create_test_task':
+                t = create_test_task(Down, input_tasks={Up: mock}, base_dir=root / f'opq{k}a')
+            else:
+                t = TestChain([Down], mock_tasks={Up: mock}, base_dir=root / f'opq{k}b')['down']
+            got = t.value['same']
+            if got is not mock or calls:
+                ctx.fail('a mocked task did not return the supplied value (the helper called or replaced it)', case,
+                         {'via': via, 'got': repr(got)[:80], 'mock_was_called': bool(calls)})
+                calls.clear()
 
 
 def search(ctx, divergences):
